@@ -211,7 +211,7 @@ def _feeds_only_assert(b, local, depth=0):
         if u[0] == "stmt":
             s = u[3]
             r = s["r"]
-            if s["k"] == "assign" and not s["p"]["p"] and (r["k"] in ("use", "ref") or (r["k"] == "binop" and r["op"] in ("Le", "Lt", "Ge", "Gt", "Eq", "Ne")) or (r["k"] == "unop" and r["op"] == "Not")
+            if s["k"] == "assign" and not s["p"]["p"] and (r["k"] in ("use", "ref", "cast") or r["k"] == "binop" or (r["k"] == "unop" and r["op"] == "Not")
                                                        or (r["k"] == "agg" and r.get("ak") in ("array", "tuple") and depth > 0)):
                 if not _feeds_only_assert(b, s["p"]["l"], depth + 1):
                     return False
@@ -223,6 +223,8 @@ def _feeds_only_assert(b, local, depth=0):
             t = u[2]
             if t["k"] == "call" and re.search(r"core::fmt::rt::Argument|fmt::Arguments|std::fmt::Arguments", callee_def(t)):
                 continue
+            if t["k"] == "call" and re.search(r"(with_capacity|reserve|reserve_exact|with_capacity_in)$", strip_generics(callee_def(t))):
+                continue                      # a capacity hint: no observable effect
             if t["k"] == "drop":
                 continue
             if t["k"] == "assert" and t.get("msg") != "BoundsCheck":
